@@ -41,10 +41,10 @@ type schedCase struct {
 // schedThemes: requests that meet on one entry; a case draws most of its
 // requests from one theme.
 var schedThemes = map[string][]string{
-	"f":      {"walk-f", "walk-D-f", "clone-2", "open-2", "getattr-2", "getattr-2", "setattr-2", "setattr-mtime-2", "setattr-times-2", "setattr-size-2", "xattrwalk-2", "unlink-f", "unlink-f2", "ren-f-f2", "ren-g-f", "ren-f-E", "trename-2", "remove-2", "create-D", "link-D", "clunk-2"},
-	"k":      {"walk-sub-k", "walk-D-sub-k", "walk-3-k", "clone-4", "open-4", "getattr-4", "setattr-4", "unlink-k", "ren-k-D", "trename-4", "remove-4", "ren-sub-E", "ren-sub-sub3", "setattr-3", "create-sub", "mkdir-sub", "clunk-3", "clone-3"},
+	"f":      {"ren-f-f", "walk-f", "walk-D-f", "clone-2", "open-2", "getattr-2", "getattr-2", "setattr-2", "setattr-mtime-2", "setattr-times-2", "setattr-size-2", "xattrwalk-2", "unlink-f", "unlink-f2", "ren-f-f2", "ren-g-f", "ren-f-E", "trename-2", "remove-2", "create-D", "link-D", "clunk-2"},
+	"k":      {"ren-k-k", "walk-sub-k", "walk-D-sub-k", "walk-3-k", "clone-4", "open-4", "getattr-4", "setattr-4", "unlink-k", "ren-k-D", "trename-4", "remove-4", "ren-sub-E", "ren-sub-sub3", "setattr-3", "create-sub", "mkdir-sub", "clunk-3", "clone-3"},
 	"e":      {"walk-D-e", "walk-D-e-x", "walk-D-e-x", "unlink-e", "remove-8", "mkdir-e", "ren-e-E", "getattr-8", "clone-8", "setattr-8"},
-	"fnew":   {"remove-2", "unlink-f", "create-f", "create-f", "ren-g-f", "walk-f", "open-2", "ren-f-f2", "mkdir-f"},
+	"fnew":   {"ren-f-f", "remove-2", "unlink-f", "create-f", "create-f", "ren-g-f", "walk-f", "open-2", "ren-f-f2", "mkdir-f"},
 	"knew":   {"remove-4", "unlink-k", "create-k", "create-k", "walk-3-k", "ren-k-D", "open-4", "ren-sub-E"},
 	"create": {"hangup", "create-D", "create-D", "create-sub", "create-sub", "ren-new-new2", "ren-new-E", "ren-subnew-D", "ren-sub-E", "ren-D-E", "unlink-new", "walk-new", "ren-sub-sub3"},
 	"io":     {"read-10", "write-10", "fsync-10", "setattr-2", "setattr-mtime-2", "setattr-size-2", "unlink-f", "ren-g-f", "readdir-9", "create-D", "mkdir-D", "unlink-g", "getattr-2", "clunk-10", "remove-2", "hangup", "hangup"},
@@ -56,7 +56,7 @@ var schedAlphabet = []string{
 	"open-2", "open-4", "getattr-2", "getattr-4", "setattr-2", "setattr-3", "setattr-4", "readlink-7", "xattrwalk-2",
 	"unlink-f", "unlink-g", "unlink-k", "unlink-e", "unlink-s", "ren-f-f2", "ren-g-f", "ren-sub-E", "ren-f-E", "ren-k-D", "ren-sub-sub3",
 	"trename-2", "trename-4", "remove-2", "remove-8", "remove-4", "create-D", "create-sub", "mkdir-D", "mkdir-sub", "symlink-D", "link-D", "clunk-2", "clunk-3",
-	"readdir-9", "read-10", "write-10", "fsync-10", "clunk-10", "hangup", "setattr-mtime-2", "setattr-times-2", "setattr-size-2", "setattr-mtime-D",
+	"ren-f-f", "ren-k-k", "readdir-9", "read-10", "write-10", "fsync-10", "clunk-10", "hangup", "setattr-mtime-2", "setattr-times-2", "setattr-size-2", "setattr-mtime-D",
 	"create-f", "create-k", "mkdir-f", "ren-new-new2", "ren-new-E", "ren-subnew-D", "unlink-new", "walk-new", "ren-D-E",
 	"unlink-f2", "walk-D-e-x", "mkdir-e", "ren-e-E", "getattr-8", "clone-8", "setattr-8", "setattr-D", "getattr-D",
 }
@@ -119,6 +119,10 @@ func schedMsg(kind string) *refcodec.Msg {
 		return tUnlinkat(1, "s")
 	case "ren-f-f2":
 		return tRenameat(1, "f", 1, "f2")
+	case "ren-f-f":
+		return tRenameat(1, "f", 11, "f") // onto itself, the directory named through two fids
+	case "ren-k-k":
+		return tRenameat(3, "k", 3, "k")
 	case "ren-new-new2":
 		return tRenameat(1, "new", 1, "new2")
 	case "ren-new-E":
@@ -263,7 +267,7 @@ func runSchedCaseKeep(c schedCase, st *schedStats, keep func(sig string) bool) *
 		}
 		for j, m := range []*refcodec.Msg{tAttach(0, nofid, ""), tWalk(0, 1, "D"), tWalk(0, 2, "D", "f"), tWalk(0, 3, "D", "sub"), tWalk(0, 4, "D", "sub", "k"),
 			tWalk(0, 5, "E"), tWalk(0, 6, "D", "g"), tWalk(0, 7, "D", "s"), tWalk(0, 8, "D", "e"),
-			tWalk(0, 9, "D"), tOpen(9, 0), tWalk(0, 10, "D", "f"), tOpen(10, 2)} {
+			tWalk(0, 9, "D"), tOpen(9, 0), tWalk(0, 10, "D", "f"), tOpen(10, 2), tWalk(0, 11, "D")} {
 			if r, err := s.Call(withTag(m, uint16(1+j))); err != nil || r.Type == refcodec.Rlerror {
 				return failf("harness-setup", "HARNESS-ERROR %s: %v %v", m, r, err)
 			}
